@@ -719,16 +719,38 @@ def to_from_meshio_stream(ctx, n):
         if any(t == "POLYGON" for t, _ in M["blocks"]) or MG.has_coincident_points(M):
             continue      # (polygons: meshio needs one block per corner count; exercised by the hybrid stream)
         todo.append(M)
+    exprs, impl_cells, owners = [], [], []
     for M in todo:
         canon = {"bridge": _json.loads(_json.dumps({k: v for k, v in M.items() if not k.startswith("_")}, default=str))}
         types = [t for t, _ in M["blocks"]]
         bad = bridge_verdict(M)
+        if not bad and len(exprs) < (150 if ctx.tier == "quick" else 3000):
+            try:
+                import warnings as _w
+                from meshio._vtk_common import meshio_to_vtk_type
+                from fieldcompare.mesh import meshio_utils
+                with _w.catch_warnings():
+                    _w.simplefilter("ignore")
+                    mm = meshio_utils.to_meshio(MG.to_fieldcompare(M))
+                impl_cells.append([[int(meshio_to_vtk_type[c.type]), [[int(x) for x in row] for row in c.data]] for c in mm.cells])
+                blocks = clist([f"({cnat(MG.VTK_ID[t])}, {clist([clist([cnat(c) for c in r], 'nat') for r in rows], '(list nat)')})"
+                                for t, rows in M["blocks"]], "(nat * list (list nat))")
+                exprs.append(f"to_meshio_fixed {blocks}")
+                owners.append(canon)
+            except Exception as e:  # noqa: BLE001
+                ctx.notes.append(f"to_meshio model tie skipped for one mesh: {type(e).__name__}: {e}")
         ctx.case(canon, len(types) >= 2, sample={"cell types": types, "points": len(M["pts"])})
         ctx.count("bridge:types:" + "+".join(sorted(types)))
         ctx.tie("T2 to_meshio / from_meshio round trip conserves the content")
         if bad:
             ctx.violation("E4", bad, canon)
         ctx.traces_validated += 1
+    hdr = HEADER.replace("From FC Require Import Model.Structured.", "From FC Require Import Model.Structured Proofs.BridgeP.", 1)
+    for canon, im, mo in zip(owners, impl_cells, ctx.coq_eval(hdr, exprs, name="c07bridge", shard=60) if exprs else []):
+        ctx.tie("T2 to_meshio cell blocks vs Proofs.BridgeP.to_meshio_fixed")
+        mo_ = [[t, [list(r) for r in rows]] for t, rows in mo]
+        if mo_ != im:
+            ctx.violation("E2", "to_meshio: model blocks != implementation blocks", canon, found_input=False, impl=im, model=mo_)
 
 
 def run(ctx):
